@@ -37,7 +37,7 @@ def gen(rng, i, ctx):
     if cls == 'ints':
         alpha = [list(range(int(rng.integers(2, 5)))), [-2, -1, 0, 1], [-1, -2], [0, 2 ** 61 - 1, 1], [-3, -2, -1, 5]][int(rng.integers(0, 5))]   # signed and large ints too
     if cls == 'tokens':
-        alpha = ['ab', 'a', 'b', 'ba'][:int(rng.integers(2, 5))]
+        alpha = [['ab', 'a', 'b', 'ba'][:int(rng.integers(2, 5))], ['a', '', 'b'], ['', 'x'], ['a', '', 'bc', ' ']][int(rng.integers(0, 4))]      # also the empty token ('a  b'.split(' '))
     la, lb = int(rng.integers(0, 13)), int(rng.integers(0, 13))
     a, b = _seq(rng, la, alpha), _seq(rng, lb, alpha)
     if cls == 'equal':
